@@ -82,7 +82,13 @@ impl Runnable for Cfg {
             Algo::Isotonic => {
                 let x1 = x.slice(s![.., 0..1]).to_owned();
                 let q1 = q.slice(s![.., 0..1]).to_owned();
-                match IsotonicRegression::new().fit(&DatasetBase::new(x1, y)) {
+                // isotonic regression honours dataset weights: real-valued ones in every other case
+                let mut ds = DatasetBase::new(x1, y);
+                if self.l1_10 % 2 == 1 {
+                    let mut r = vengine::gen::SplitMix(self.data_seed ^ 0x150);
+                    ds = ds.with_weights(Array1::from_shape_fn(self.n, |i| (0.1 + 0.37 * ((i % 7) as f64) + 0.9 * r.unit()) as f32));
+                }
+                match IsotonicRegression::new().fit(&ds) {
                     Ok(m) => {
                         out.arr("isotonic:predict", &m.predict(&q1));
                         bits_model(&mut out, "isotonic:model_bytes", &m);
